@@ -378,6 +378,50 @@ func (ft *ftr) edge(b *ssa.BasicBlock, k int, cur map[*cell]ex) (node, error) {
 	return j, nil
 }
 
+// surelyNonNil: a *big.Int value that cannot be nil by construction (decides whether a φ-node is `Int` or `Option Int`).
+func (ft *ftr) surelyNonNil(v ssa.Value, seen map[ssa.Value]bool) bool {
+	if seen[v] {
+		return true
+	}
+	seen[v] = true
+	switch v := v.(type) {
+	case *ssa.Alloc:
+		return true
+	case *ssa.Parameter:
+		return !ft.nilable[v]
+	case *ssa.UnOp:
+		_, isGlobal := v.X.(*ssa.Global)
+		return v.Op == token.MUL && isGlobal
+	case *ssa.Phi:
+		for _, e := range v.Edges {
+			if !ft.surelyNonNil(e, seen) {
+				return false
+			}
+		}
+		return true
+	case *ssa.Call:
+		callee := ft.staticCallee(&v.Call)
+		if callee == nil {
+			return false
+		}
+		if callee.Pkg != nil && callee.Pkg.Pkg.Path() == "math/big" {
+			return isBigPtr(v.Type()) // NewInt and every method returning its receiver
+		}
+		if ci, ok := ft.t.done[callee]; ok && ci.nGoRes == 1 {
+			return ci.results[0].k == kBig
+		}
+	case *ssa.Extract:
+		if c, ok := v.Tuple.(*ssa.Call); ok {
+			if callee := ft.staticCallee(&c.Call); callee != nil {
+				if ci, ok := ft.t.done[callee]; ok && v.Index < ci.nGoRes {
+					return ci.results[v.Index].k == kBig
+				}
+			}
+		}
+	}
+	return false
+}
+
 // joinCells: the threaded cells a join block receives as parameters.
 func (ft *ftr) joinCells(s *ssa.BasicBlock) []*cell {
 	var r []*cell
@@ -412,6 +456,9 @@ func (ft *ftr) join(s *ssa.BasicBlock) (*joinDef, error) {
 		switch {
 		case isBigPtr(t):
 			v.k = kBigOpt
+			if ft.surelyNonNil(phi, map[ssa.Value]bool{}) {
+				v.k = kBig
+			}
 		case isErrorType(t):
 			v.k = kErr
 		default:
@@ -572,7 +619,7 @@ func (ft *ftr) finish(body node) error {
 	var b strings.Builder
 	rty := fi.resultTy()
 	for _, jd := range ft.joinOrder {
-		fmt.Fprintf(&b, "def %s", jd.name)
+		fmt.Fprintf(&b, "@[simp] def %s", jd.name)
 		for _, p := range jd.phiParams {
 			fmt.Fprintf(&b, " (%s : %s)", p.name, unparen(p.ty))
 		}
